@@ -153,7 +153,9 @@ def check(ctx):
     if f is not None:
         PUSHL = Call(r"may_queue::mpsc_list(_v1)?::Queue::push", transitive=False)
         pushes = sorted(ctx.an.sites(f, PUSHL, "must"))
-        inst = ctx.an.sites(f, Call(re.escape(TL) + "::TimeOutList::install_timer_bh", transitive=False), "must")
+        # "install the list's heap entry": the helper, or its primitive written out (the in_use claim that precedes the heap push)
+        inst = ctx.an.sites(f, Call(re.escape(TL) + "::TimeOutList::install_timer_bh", transitive=False), "must") | \
+               ctx.an.sites(f, atomic("fetch_add", TL + "::TimeoutQueueWrapper.in_use", transitive=False), "must")
         if len(pushes) < 2 or not inst:
             ctx.missing("R-PAIR", ADDL, "list/head-push-installs-heap-entry", "pushes=%d install_timer_bh=%d" % (len(pushes), len(inst)))
         else:
